@@ -14,13 +14,13 @@ def run(ctx):
     ctx.run_shards(b, ["--mode", "deep"], nshards=4, label="json deep")
     ctx.run_shards(b, ["--mode", "round", "--nodes", str(p["nodes"])], label="json roundtrip")
     ctx.run_shards(b, ["--mode", "strip", "--len", str(p["strip_len"])], label="json stripComments")
-    ctx.run_shards(b, ["--mode", "parse", "--len", str(p["parse_len"])], label="json parse")
+    ctx.run_shards(b, ["--mode", "parse", "--len", str(p["parse_len"]), "--preflen", str(p["parse_len"] - 1)], label="json parse")
     c = ctx.counters
     ev = sum(c.get(k, 0) for k in ("parse_inputs", "deep_inputs", "roundtrip_trees", "strip_inputs"))
     cov = {"evaluations": int(ev), "distinct_nontrivial": int(c.get("distinct_nontrivial", 0)),
-           "rule": "parse: every string of <= %d tokens over a 32-token alphabet ({ } [ ] , : \" \\ u d 0 a f 1 - . e / * SP LF CR 0x01 0x80 0xFF true null "
+           "rule": "parse: every string of <= %d tokens over a 33-token alphabet ({ } [ ] , : \" \\ u d 0 a f 1 - . e / * SP LF CR 0x01 0x80 0xFF true null "
                    "e-acute \\ud83d \\ude00 t n), each in an exactly sized heap block under ASan, error line/column checked against the line structure "
-                   "(CRLF, CR, LF); nesting 1/10/100/1000 of arrays, objects, mixed (closed and truncated); round trip: every value tree with <= %d nodes "
+                   "(CRLF, CR, LF), and every byte prefix of every accepted document of one token less; nesting 1/10/100/1000 of arrays, objects, mixed (closed and truncated); round trip: every value tree with <= %d nodes "
                    "over null/true/false/0/-1/INT_MIN/INT_MAX/INT64_MIN/INT64_MAX, all strings of length <= 2 over {a \" \\ / LF CR TAB 0x01 0x7f e-acute emoji}, every byte 0x01..0x7f alone and between two letters, 64-bit integers at the digit-count and double-precision boundaries, "
                    "lists and maps; stripComments: every string of <= %d symbols over { / * \" \\ LF CR a SP } against a reference state machine. "
                    "distinct_nontrivial counts inputs of >= 2 tokens / trees of >= 2 nodes / strip inputs containing '/'"
